@@ -205,6 +205,42 @@ def eval_bare(ver):
     return n, bad
 
 
+FE_SCHEMA = '''<xs:schema xmlns:xs="http://www.w3.org/2001/XMLSchema"><xs:element name="r"><xs:complexType><xs:sequence>
+ <xs:element name="empty" minOccurs="0"><xs:complexType><xs:attribute name="k" type="xs:int"/></xs:complexType></xs:element>
+ <xs:element name="es" minOccurs="0"><xs:complexType><xs:sequence/></xs:complexType></xs:element>
+ <xs:element name="eo" minOccurs="0"><xs:complexType><xs:sequence><xs:element name="a" minOccurs="0"/></xs:sequence></xs:complexType></xs:element>
+ <xs:element name="mx" minOccurs="0"><xs:complexType mixed="true"><xs:attribute name="k" type="xs:int"/></xs:complexType></xs:element>
+ <xs:element name="fx" type="xs:string" fixed="abc" minOccurs="0"/><xs:element name="fi" type="xs:int" fixed="7" minOccurs="0"/>
+ <xs:element name="fs" fixed="7" minOccurs="0"><xs:complexType><xs:simpleContent><xs:extension base="xs:int"><xs:attribute name="u"/></xs:extension></xs:simpleContent></xs:complexType></xs:element>
+ <xs:element name="fd" type="xs:decimal" fixed="1.50" minOccurs="0"/><xs:element name="ft" type="xs:token" fixed="a b" minOccurs="0"/>
+</xs:sequence></xs:complexType></xs:element></xs:schema>'''
+FE_DATA = [{'empty': {'@k': 1, '$': 'text'}}, {'empty': {'@k': 1}}, {'empty': {'@k': 1, '$': ' '}}, {'empty': {'@k': 1, '$': ''}}, {'empty': None}, {'empty': 'text'}, {'es': {'$': 'x'}}, {'es': {'$': ' '}}, {'es': None}, {'eo': {'$': ' '}}, {'eo': {'$': 'x'}},
+           {'eo': {'$': ' ', 'a': None}}, {'mx': {'@k': 1, '$': 'text'}}, {'fx': 'zzz'}, {'fx': 'abc'}, {'fx': ''}, {'fx': None}, {'fx': ' abc'}, {'fi': 8}, {'fi': 7}, {'fi': '07'}, {'fi': '8'}, {'fi': None}, {'fs': {'@u': 'a', '$': 8}}, {'fs': {'@u': 'a', '$': 7}},
+           {'fs': {'@u': 'a'}}, {'fd': 1.5}, {'fd': '1.5'}, {'fd': '1.51'}, {'ft': 'a  b'}, {'ft': 'a c'}, {'empty': {'@k': 1, '$': 5}}, {'eo': {'$': 0}}]
+
+
+def eval_fixed_empty(ver):
+    """strict encode of data that puts character data into an empty or element-only content, or a value beside the fixed value of an element: the call raises a library
+    error or returns XML the schema accepts; the data that the schema's own decoding produces for a valid document is accepted"""
+    import xmlschema
+    s = _cls(ver)(FE_SCHEMA); bad = []; n = 0
+    for data in FE_DATA:
+        for cname in ('default', 'badgerfish'):
+            n += 1; kw = dict(converter=converters()[cname]) if cname != 'default' else {}
+            d = data if cname == 'default' else {'r': {k: (v if isinstance(v, dict) else ({'$': v} if v is not None else {})) for k, v in data.items()}}
+            try: e = s.encode(d, path='r', **kw)
+            except xmlschema.XMLSchemaException: continue
+            except Exception as exn: bad.append(dict(ver=ver, data=repr(data), converter=cname, observed=f'raised {type(exn).__name__}: {str(exn)[:80]}')); continue
+            if not s.is_valid(e): bad.append(dict(ver=ver, data=repr(data), converter=cname, observed=f'returned {xmlschema.etree_tostring(e)[:120]!r}, refused by the schema: {[x.reason[:60] for x in s.iter_errors(e)][:1]}'))
+    for doc in ('<r><empty k="1"/><fx>abc</fx><fi>07</fi><fs u="a">7</fs><fd>1.5</fd><ft> a  b </ft></r>', '<r><es/><eo> </eo><mx k="1">text</mx><fx/><fi/></r>'):
+        n += 1
+        try:
+            e = s.encode(s.decode(doc), path='r')
+            if not s.is_valid(e): bad.append(dict(ver=ver, data=doc, converter='default', observed='the data decoded from a valid document encodes to an invalid one'))
+        except xmlschema.XMLSchemaException as exn: bad.append(dict(ver=ver, data=doc, converter='default', observed=f'the data decoded from a valid document does not encode: {str(exn).strip().splitlines()[0][:100] if str(exn).strip() else type(exn).__name__}'))
+    return n, bad
+
+
 def run(tier, seed, open_findings):
     rng = random.Random(seed); n = 4000 if tier == 'thorough' else 80
     docs = [gen(rng) for _ in range(n)]
@@ -222,6 +258,9 @@ def run(tier, seed, open_findings):
             if r['doc'] in L1 and 'decode/encode raised XMLSchemaValidationError' in str(b[1]) and K1 in open_findings: known[K1] = known.get(K1, 0) + 1; continue
             fails.append(dict(case=dict(doc=r['doc'], ver=r['ver'], mseed=j[2]), observed=list(b), required='valid, structurally equal, same data; strict encode raises or returns valid XML'))
     cases = sum(r['cases'] for r in res)
+    for nb, bb in pmap(eval_fixed_empty, ['1.0', '1.1'], chunk=1):
+        cases += nb
+        fails.extend(dict(case=dict(ver=b['ver'], fixed_empty=[b['data'], b['converter']]), observed=b['observed'], required='strict encode raises or returns XML the schema accepts') for b in bb)
     for nb, bb in pmap(eval_bare, ['1.0', '1.1'], chunk=1):
         cases += nb
         fails.extend(dict(case=dict(ver=b['ver'], bare=[b['path'], b['data']]), observed=b['observed'], required='strict encode raises or returns XML the selected declaration accepts') for b in bb)
@@ -230,6 +269,9 @@ def run(tier, seed, open_findings):
 
 
 def replay(check_name, case):
+    if case.get('fixed_empty'):
+        bb = [b for b in eval_fixed_empty(case['ver'])[1] if [b['data'], b['converter']] == list(case['fixed_empty'])]
+        return dict(ok=not bb, observed=bb[:1], required='strict encode raises or returns XML the schema accepts')
     if case.get('bare'):
         bb = [b for b in eval_bare(case['ver'])[1] if [b['path'], b['data']] == list(case['bare'])]
         return dict(ok=not bb, observed=bb[:1], required='strict encode raises or returns XML the selected declaration accepts')
